@@ -461,4 +461,102 @@ example :
 example : (run (St.init 2 false) [.newRegister tTickM, .sendTask 0, .newRegister tTickM, .sendTask 0]).2 =
     [.complete { op := 0, wire := .null } (.registered 0), .complete { op := 1, wire := .null } .alreadyRegistered] := by decide
 
+/-! ### C18.5 — the answer to an unsubscribe call ends it whatever it says -/
+
+/-- The response bearing the id of a `PendingUnsubscribe(rid)` entry releases that entry **and** the
+marker `PendingMethodCall(None)` left under the subscribe id `rid` — for every payload (`true`,
+`false`, an error object, anything): nothing in the hypotheses or in the code path looks at
+`r.payload`.  Nobody waits for the outcome (no effect); afterwards a response bearing either id is
+rejected as `NotPendingRequest`. -/
+theorem c18_unsub_ack_any_payload (st : Core) (r : Response) (rid : Id) (c : ChanId)
+    (hu : alookup r.id st.mgr.requests = some (.pendingUnsub rid c))
+    (hm : alookup rid st.mgr.requests = some (.pendingCall none)) :
+    ∃ st', processSingleResponse st r = .ok (st', []) ∧
+      st'.mgr.requests = aerase rid (aerase r.id st.mgr.requests) ∧
+      st'.mgr.subs = st.mgr.subs ∧ st'.mgr.batches = st.mgr.batches ∧ st'.mgr.handlers = st.mgr.handlers ∧
+      alookup r.id st'.mgr.requests = none ∧ alookup rid st'.mgr.requests = none ∧
+      (∀ r' : Response, r'.id = r.id ∨ r'.id = rid → processSingleResponse st' r' = .error (.notPending r'.id)) := by
+  have hne : rid ≠ r.id := by
+    intro e; rw [e, hu] at hm; simp at hm
+  have hs : st.mgr.requestStatus r.id = .pendingCall := by unfold Mgr.requestStatus; rw [hu]
+  have hm' : alookup rid (aerase r.id st.mgr.requests) = some (.pendingCall none) := by
+    rw [alookup_aerase_ne rid r.id _ hne]; exact hm
+  have hcp : st.mgr.completePendingCall r.id =
+      some ({ st.mgr with requests := aerase rid (aerase r.id st.mgr.requests) }, none) := by
+    unfold Mgr.completePendingCall
+    rw [hu]
+    simp only [Mgr.releaseReservedSlot, hm']
+  have hres : processSingleResponse st r =
+      .ok (({ st with mgr := { st.mgr with requests := aerase rid (aerase r.id st.mgr.requests) } }).ackAt (st.mgr.ackTarget r.id), []) := by
+    unfold processSingleResponse
+    simp only [hs, hcp]
+  refine ⟨_, hres, ?_, ?_, ?_, ?_, ?_, ?_, ?_⟩
+  · rw [ackAt_mgr]
+  · rw [ackAt_mgr]
+  · rw [ackAt_mgr]
+  · rw [ackAt_mgr]
+  · rw [ackAt_mgr]
+    show alookup r.id (aerase rid (aerase r.id st.mgr.requests)) = none
+    rw [alookup_aerase_ne r.id rid _ (fun e => hne e.symm)]
+    exact alookup_aerase_self _ _
+  · rw [ackAt_mgr]
+    exact alookup_aerase_self _ _
+  · intro r' hr'
+    unfold processSingleResponse Mgr.requestStatus
+    rw [ackAt_mgr]
+    have hnone : alookup r'.id (aerase rid (aerase r.id st.mgr.requests)) = none := by
+      rcases hr' with e | e
+      · rw [e, alookup_aerase_ne r.id rid _ (fun e => hne e.symm)]; exact alookup_aerase_self _ _
+      · rw [e]; exact alookup_aerase_self _ _
+    simp only [hnone]
+
+/-- the same without assuming the marker: whatever the acknowledgement says, its own entry is gone
+and no bare marker is left under the subscribe id -/
+theorem c18_unsub_ack_no_marker_left (st : Core) (r : Response) (rid : Id) (c : ChanId)
+    (hu : alookup r.id st.mgr.requests = some (.pendingUnsub rid c)) :
+    ∃ st', processSingleResponse st r = .ok (st', []) ∧
+      alookup r.id st'.mgr.requests = none ∧ alookup rid st'.mgr.requests ≠ some (.pendingCall none) := by
+  have hs : st.mgr.requestStatus r.id = .pendingCall := by unfold Mgr.requestStatus; rw [hu]
+  have hcp : st.mgr.completePendingCall r.id =
+      some (({ st.mgr with requests := aerase r.id st.mgr.requests }).releaseReservedSlot rid, none) := by
+    unfold Mgr.completePendingCall; rw [hu]
+  have hres : processSingleResponse st r =
+      .ok (({ st with mgr := ({ st.mgr with requests := aerase r.id st.mgr.requests }).releaseReservedSlot rid }).ackAt (st.mgr.ackTarget r.id), []) := by
+    unfold processSingleResponse
+    simp only [hs, hcp]
+  refine ⟨_, hres, ?_, ?_⟩
+  · rw [ackAt_mgr]
+    rcases releaseReservedSlot_cases ({ st.mgr with requests := aerase r.id st.mgr.requests }) rid with h | ⟨_, h⟩
+    · rw [h]; exact alookup_aerase_self _ _
+    · rw [h]
+      show alookup r.id (aerase rid (aerase r.id st.mgr.requests)) = none
+      by_cases e : r.id = rid
+      · rw [e]; exact alookup_aerase_self _ _
+      · rw [alookup_aerase_ne r.id rid _ e]; exact alookup_aerase_self _ _
+  · rw [ackAt_mgr]
+    by_cases hm : alookup rid (aerase r.id st.mgr.requests) = some (.pendingCall none)
+    · have : ({ st.mgr with requests := aerase r.id st.mgr.requests } : Mgr).releaseReservedSlot rid =
+          { st.mgr with requests := aerase rid (aerase r.id st.mgr.requests) } := by
+        simp only [Mgr.releaseReservedSlot, hm]
+      rw [this]
+      show alookup rid (aerase rid (aerase r.id st.mgr.requests)) ≠ _
+      rw [alookup_aerase_self]; simp
+    · rcases releaseReservedSlot_cases ({ st.mgr with requests := aerase r.id st.mgr.requests }) rid with h | ⟨h1, _⟩
+      · rw [h]; exact hm
+      · exact absurd h1 hm
+
+/-- `{"jsonrpc":"2.0","id":1,"error":{"code":-32000,"message":"subscription not found"}}` -/
+def tAckErr1 : Text := [123, 34, 106, 115, 111, 110, 114, 112, 99, 34, 58, 34, 50, 46, 48, 34, 44, 34, 105, 100, 34, 58, 49, 44, 34, 101, 114, 114, 111, 114, 34, 58, 123, 34, 99, 111, 100, 101, 34, 58, 45, 51, 50, 48, 48, 48, 44, 34, 109, 101, 115, 115, 97, 103, 101, 34, 58, 34, 115, 117, 98, 115, 99, 114, 105, 112, 116, 105, 111, 110, 32, 110, 111, 116, 32, 102, 111, 117, 110, 100, 34, 125, 125]
+
+/-- subscribe accepted, explicit unsubscribe, the server answers the unsubscribe call with an error -/
+def unsubAnsweredWithError : List Step :=
+  [.newSubscribe tSubM tUnsubM, .sendTask 0, .recv tAccept0, .unsubscribeStream 0, .sendTask 0, .recv tAckErr1]
+
+example : quiescentB (run (St.init 2 false) unsubAnsweredWithError).1 (run (St.init 2 false) unsubAnsweredWithError).2 = true ∧
+    (run (St.init 2 false) unsubAnsweredWithError).1.core.mgr.sizes = (0, 0, 0, 0) ∧
+    (run (St.init 2 false) (unsubAnsweredWithError.take 5)).1.core.mgr.sizes = (2, 0, 0, 0) := by decide
+-- the stale unsubscribe id / subscribe id capture nothing afterwards
+example : (step (run (St.init 2 false) unsubAnsweredWithError).1 (.recv tAck1)).fatal = some (.notPending (.num 1)) ∧
+    (step (run (St.init 2 false) unsubAnsweredWithError).1 (.recv tAccept0)).fatal = some (.notPending (.num 0)) := by decide
+
 end Jrpc.Client
